@@ -49,6 +49,9 @@ type Op struct {
 	// allow-list
 	Bidder string `json:"bidder,omitempty"` // actor name
 	Max    string `json:"max,omitempty"`
+	// EntryAIDOther: the AllowedBidder entry handed to the keeper API carries another auction's id (AID xor 1)
+	// in its own auction_id field, which the API's auctionId argument is documented to override
+	EntryAIDOther bool `json:"entry_aid_other,omitempty"`
 	// block / tick
 	K int `json:"k,omitempty"`
 	// donate
@@ -79,6 +82,9 @@ func (o Op) String() string {
 	case "cancel":
 		return fmt.Sprintf("cancel(%s a%d)", o.Signer, o.AID)
 	case "add_allowed", "msg_add_allowed":
+		if o.EntryAIDOther {
+			return fmt.Sprintf("%s(a%d %s max=%s entry.auction_id=%d)", o.Kind, o.AID, o.Bidder, o.Max, o.AID^1)
+		}
 		return fmt.Sprintf("%s(a%d %s max=%s)", o.Kind, o.AID, o.Bidder, o.Max)
 	case "update_allowed":
 		return fmt.Sprintf("update_allowed(a%d %s max=%s)", o.AID, o.Bidder, o.Max)
@@ -329,7 +335,11 @@ func (o Op) Apply(w *world.World, ctx sdk.Context) (sdk.Context, Result) {
 				}
 			}()
 			if o.Kind == "add_allowed" {
-				res.Err = w.K.AddAllowedBidders(cctx, o.AID, []ftypes.AllowedBidder{{AuctionId: o.AID, Bidder: msgAddr(o.Bidder), MaxBidAmount: mustInt(o.Max)}})
+				eid := o.AID
+				if o.EntryAIDOther {
+					eid = o.AID ^ 1
+				}
+				res.Err = w.K.AddAllowedBidders(cctx, o.AID, []ftypes.AllowedBidder{{AuctionId: eid, Bidder: msgAddr(o.Bidder), MaxBidAmount: mustInt(o.Max)}})
 			} else {
 				res.Err = w.K.UpdateAllowedBidder(cctx, o.AID, world.A(o.Bidder).Addr, mustInt(o.Max))
 			}
